@@ -403,6 +403,7 @@ type supplied struct {
 	pr    parser.Result
 	fdp   *descriptorpb.FileDescriptorProto
 	snap  []byte
+	nloc  int
 }
 
 func short(path string) string { return strings.TrimSuffix(path, ".proto") }
@@ -454,9 +455,49 @@ func formsCheck(c *tcase) {
 					s.fdp = proto.Clone(pr.FileDescriptorProto()).(*descriptorpb.FileDescriptorProto)
 					s.pr = nil
 				}
+				if s.form == "protosi" {
+					// a descriptor proto that carries source code info (the linked output of a compilation
+					// with source info); the compiler must neither strip it from nor add to the supplied object
+					s.fdp = nil
+					s.pr = nil
+				}
 			}
 		}
 		sup[path] = s
+	}
+	var siRef linker.Files
+	for path, s := range sup {
+		if s.form != "protosi" {
+			continue
+		}
+		if siRef == nil {
+			var err error
+			siRef, err = compile(srcResolver(texts), protocompile.SourceInfoStandard, featgen.Main)
+			if err != nil {
+				report(c, "HARNESS:does-not-compile", err.Error())
+				return
+			}
+		}
+		var find func(f protoreflect.FileDescriptor) protoreflect.FileDescriptor
+		find = func(f protoreflect.FileDescriptor) protoreflect.FileDescriptor {
+			if f.Path() == path {
+				return f
+			}
+			for i := 0; i < f.Imports().Len(); i++ {
+				if r := find(f.Imports().Get(i).FileDescriptor); r != nil {
+					return r
+				}
+			}
+			return nil
+		}
+		fd := find(siRef[0])
+		if fd == nil {
+			report(c, "HARNESS:no-such-file", path)
+			return
+		}
+		s.fdp = fdpOf(fd)
+		s.snap = featgen.DetBytes(s.fdp)
+		s.nloc = len(s.fdp.GetSourceCodeInfo().GetLocation())
 	}
 	resolver := protocompile.WithStandardImports(protocompile.ResolverFunc(func(path string) (protocompile.SearchResult, error) {
 		s, ok := sup[path]
@@ -468,7 +509,7 @@ func formsCheck(c *tcase) {
 			return protocompile.SearchResult{AST: s.ast}, nil
 		case "parse":
 			return protocompile.SearchResult{ParseResult: s.pr}, nil
-		case "proto":
+		case "proto", "protosi":
 			return protocompile.SearchResult{Proto: s.fdp}, nil
 		}
 		return protocompile.SearchResult{Source: strings.NewReader(s.text)}, nil
@@ -480,9 +521,9 @@ func formsCheck(c *tcase) {
 				if !bytes.Equal(s.snap, featgen.DetBytes(s.pr.FileDescriptorProto())) {
 					report(c, "forms:input-mutated:parse-result", path+" "+when)
 				}
-			case "proto":
+			case "proto", "protosi":
 				if !bytes.Equal(s.snap, featgen.DetBytes(s.fdp)) {
-					report(c, "forms:input-mutated:proto", path+" "+when)
+					report(c, "forms:input-mutated:"+s.form, path+" "+when)
 				}
 			}
 		}
@@ -505,17 +546,52 @@ func formsCheck(c *tcase) {
 	checkSnap("after first compile")
 	// the same supplied objects used by two concurrent compilations
 	var wg sync.WaitGroup
-	for i := 0; i < 2; i++ {
-		wg.Add(1)
-		go func() {
-			defer wg.Done()
-			fs2, err := compile(resolver, mode, featgen.Main)
-			if err != nil {
-				report(c, "forms:compile-fails", "concurrent: "+err.Error())
+	locCount := func(fs linker.Files, path string) int {
+		n := -1
+		var walk func(f protoreflect.FileDescriptor)
+		seen := map[string]bool{}
+		walk = func(f protoreflect.FileDescriptor) {
+			if seen[f.Path()] {
 				return
 			}
-			cmp(fs2, "concurrent compile")
-		}()
+			seen[f.Path()] = true
+			if f.Path() == path {
+				n = f.SourceLocations().Len()
+			}
+			for i := 0; i < f.Imports().Len(); i++ {
+				walk(f.Imports().Get(i).FileDescriptor)
+			}
+		}
+		walk(fs[0])
+		return n
+	}
+	// the same supplied objects used by concurrent compilations with DIFFERENT source-info modes
+	for rep := 0; rep < 3; rep++ {
+		for _, m2 := range []protocompile.SourceInfoMode{protocompile.SourceInfoNone, protocompile.SourceInfoStandard, mode} {
+			wg.Add(1)
+			go func() {
+				defer wg.Done()
+				fs2, err := compile(resolver, m2, featgen.Main)
+				if err != nil {
+					report(c, "forms:compile-fails", "concurrent: "+err.Error())
+					return
+				}
+				cmp(fs2, "concurrent compile")
+				for path, s := range sup {
+					if s.form != "protosi" {
+						continue
+					}
+					got := locCount(fs2, path)
+					want := s.nloc
+					if m2 == protocompile.SourceInfoNone {
+						want = 0
+					}
+					if got != want {
+						report(c, "forms:source-info-of-supplied-proto", fmt.Sprintf("%s compiled concurrently in mode %d has %d locations, want %d", path, m2, got, want))
+					}
+				}
+			}()
+		}
 	}
 	wg.Wait()
 	checkSnap("after concurrent compiles")
